@@ -25,7 +25,7 @@ TARGETS = ["theories/Properties/C10.vo"]
 PROPERTIES_FILE = "theories/Properties/C10.v"
 IMPL = "harness.props.c10_impl"
 TAGGED = True
-SHARD = 150
+SHARD = 1024
 TABLE_DEPS = ["munge_replacements"]
 HARD_TIMEOUT = 120
 WORKER_ENV = {"BASILISP_EMIT_GENERATED_PYTHON": "false"}
@@ -247,7 +247,7 @@ def cases(tier, rng):
         yield with_reads([X, U, Y, Z], ops, modes())
     for ops in sequences(ALPHA_PRIV, 3 if quick else 5):
         yield with_reads(NSS, ops, modes())
-    for _ in range(300 if quick else 6000):
+    for _ in range(240 if quick else 6000):
         n = rng.randint(5, 12) if quick or rng.random() < 0.7 else rng.randint(13, 24)
         yield with_reads(NSS, random_history(rng, n), modes(), wide=rng.random() < 0.2, every=True)
 
